@@ -29,3 +29,9 @@ LEVEL_TEXT = "Bounded contract check of the serial run loop and its heap against
 LEVEL_NOTE = "Trusted: CBMC; bounds; stubs for timers/statistics/allocators; payload tie-break delegated to C16."
 TECHNIQUE = "CBMC bounded harness lemmas with ghost dispatch log on the real serial.c / heap.h"
 DESIGN_REF = "DESIGN.md §4 C10"
+
+# the packing of a scheduled event (msg_allocator_pack, used by ScheduleNewEvent_serial): fields and payload bytes exact
+import importlib.util as _ilu, os as _os
+_sp = _ilu.spec_from_file_location("spec_C11_for_C10", _os.path.join(_os.path.dirname(__file__), "C11.py"))
+_m = _ilu.module_from_spec(_sp); _m.H = H; _sp.loader.exec_module(_m)
+HARNESSES = HARNESSES + [dict(next(h for h in _m.OWN if h["name"] == "C11.msg_allocator_pack"), name="C10.msg_allocator_pack")]
